@@ -62,25 +62,39 @@ impl Story {
     ) -> Result<(), StoryError> {
         self.if_async_we_cant("remove a variable observer")?;
 
+        let not_registered = || {
+            StoryError::BadArgument(
+                "The observer is not registered for the given variable(s).".to_owned(),
+            )
+        };
+
         // Remove observer for this specific variable
         match specific_variable_name {
             Some(specific_variable_name) => {
-                if let Some(v) = self.variable_observers.get_mut(specific_variable_name) {
-                    let index = v.iter().position(|x| Rc::ptr_eq(x, observer)).unwrap();
-                    v.remove(index);
+                let v = self
+                    .variable_observers
+                    .get_mut(specific_variable_name)
+                    .ok_or_else(not_registered)?;
+                let index = v
+                    .iter()
+                    .position(|x| Rc::ptr_eq(x, observer))
+                    .ok_or_else(not_registered)?;
+                v.remove(index);
 
-                    if v.is_empty() {
-                        self.variable_observers.remove(specific_variable_name);
-                    }
+                if v.is_empty() {
+                    self.variable_observers.remove(specific_variable_name);
                 }
             }
             None => {
                 // Remove observer for all variables
                 let mut keys_to_remove = Vec::new();
+                let mut found = false;
 
                 for (k, v) in self.variable_observers.iter_mut() {
-                    let index = v.iter().position(|x| Rc::ptr_eq(x, observer)).unwrap();
-                    v.remove(index);
+                    if let Some(index) = v.iter().position(|x| Rc::ptr_eq(x, observer)) {
+                        v.remove(index);
+                        found = true;
+                    }
 
                     if v.is_empty() {
                         keys_to_remove.push(k.to_string());
@@ -89,6 +103,10 @@ impl Story {
 
                 for key_to_remove in keys_to_remove.iter() {
                     self.variable_observers.remove(key_to_remove);
+                }
+
+                if !found {
+                    return Err(not_registered());
                 }
             }
         }
